@@ -204,6 +204,8 @@ def shrink(ctx, op, toks, vm, against_spec):
 
 
 def run(ctx):
+    from props import sites
+    sites.report(ctx)   # regenerated site inventory vs the modelled sites (diagnosis of a broken obligation; DESIGN §12)
     rng = ctx.rng
     # ---- corpus: hand-written seeds, replayed first ---------------------------------------------
     seeds = [
